@@ -153,13 +153,34 @@ func loadKnown(path string) ([]knownFinding, error) {
 		}
 		rest := strings.TrimSpace(strings.TrimPrefix(line, "finding:"))
 		var kf knownFinding
-		fs := strings.SplitN(rest, " ", 3)
-		if len(fs) < 3 || !strings.HasPrefix(fs[0], "property=") || !strings.HasPrefix(fs[1], "key=") {
+		// finding: property=<id> key="<obligation key>" <what fails>
+		if !strings.HasPrefix(rest, "property=") {
 			return nil, fmt.Errorf("known_findings: malformed line %q", line)
 		}
-		kf.Property = strings.TrimPrefix(fs[0], "property=")
-		kf.Key = strings.TrimPrefix(fs[1], "key=")
-		kf.What = fs[2]
+		sp := strings.IndexByte(rest, ' ')
+		if sp < 0 {
+			return nil, fmt.Errorf("known_findings: malformed line %q", line)
+		}
+		kf.Property = strings.TrimPrefix(rest[:sp], "property=")
+		rest2 := strings.TrimSpace(rest[sp+1:])
+		switch {
+		case strings.HasPrefix(rest2, `key="`):
+			end := strings.Index(rest2[5:], `" `)
+			if end < 0 {
+				return nil, fmt.Errorf("known_findings: unterminated key in %q", line)
+			}
+			kf.Key = rest2[5 : 5+end]
+			kf.What = strings.TrimSpace(rest2[5+end+2:])
+		case strings.HasPrefix(rest2, "key="):
+			fs := strings.SplitN(rest2, " ", 2)
+			if len(fs) < 2 {
+				return nil, fmt.Errorf("known_findings: malformed line %q", line)
+			}
+			kf.Key = strings.TrimPrefix(fs[0], "key=")
+			kf.What = fs[1]
+		default:
+			return nil, fmt.Errorf("known_findings: malformed line %q", line)
+		}
 		out = append(out, kf)
 	}
 	return out, sc.Err()
